@@ -48,7 +48,7 @@ theorem bin_count_and_empty_eq_model (rows : List Row) (temp : List Int) :
   · rintro ⟨t, tb⟩ c ⟨hc, hinv⟩
     subst hc
     simp only [sliceMin_toOption t (tb + 1) (by omega : (0 : Int) ≤ tb + 1), Option.bind_eq_bind]
-    cases (BinObj.sliceMin t (tb + 1)).toOption <;> simp [OptRel]
+    cases (BinObj.sliceMin t (tb + 1)).toOption <;> simp [OptRel, Int.add_comm]
 
 /-- the generated function on a concrete packing: bins 1 and 2 hold 2 and 1 items; stale scratch content -/
 example : bin_count_and_empty [[1, 1, 0, 0, 2, 2], [2, 2, 0, 0, 1, 1], [3, 1, 2, 0, 3, 3]] [7, 7, 7] = some (3 * 1 + 1) := by
